@@ -14,6 +14,7 @@ import (
 	"runtime"
 	"runtime/pprof"
 	"sort"
+	"strconv"
 	"strings"
 	"sync"
 	"sync/atomic"
@@ -89,7 +90,33 @@ func main() {
 	report := map[string]interface{}{"load_s": loadS}
 	var results []map[string]interface{}
 	exit := 0
-	for _, h := range cfg.harnesses {
+	for _, hspec := range cfg.harnesses {
+		// per-harness overrides: pkg.Func@max-paths=N@max-decisions=N@map-perm-max=N@timeout-ms=N
+		parts := strings.Split(hspec, "@")
+		h := parts[0]
+		hcfg := cfg
+		for _, kv := range parts[1:] {
+			k, v, _ := strings.Cut(kv, "=")
+			n, err := strconv.Atoi(v)
+			if err != nil {
+				fmt.Fprintln(os.Stderr, "HARNESS-BUILD-ERROR: bad override", kv)
+				os.Exit(3)
+			}
+			switch k {
+			case "max-paths":
+				hcfg.maxPaths = n
+			case "max-decisions":
+				hcfg.maxDecs = n
+			case "map-perm-max":
+				hcfg.mapPermMax = n
+			case "timeout-ms":
+				hcfg.timeoutMs = n
+			default:
+				fmt.Fprintln(os.Stderr, "HARNESS-BUILD-ERROR: unknown override", kv)
+				os.Exit(3)
+			}
+		}
+		cfg := hcfg
 		fn, err := findFunc(prog, h)
 		if err != nil {
 			fmt.Fprintln(os.Stderr, "HARNESS-BUILD-ERROR:", err)
@@ -155,7 +182,21 @@ func loadProgram(cfg *config) (*ssa.Program, error) {
 			overlay[virt] = b
 		}
 	}
-	env := append(os.Environ(), "GOFLAGS=-mod=mod", "GOPROXY=off", "GOSUMDB=off", "GOTOOLCHAIN=local", "GODEBUG=goindex=0")
+	// never let the go command rewrite /repo/go.mod (harness packages import some indirect dependencies
+	// directly): work on a private copy of go.mod / go.sum
+	modDir := filepath.Join(cfg.out, "gomod")
+	os.MkdirAll(modDir, 0o755)
+	for _, f := range []string{"go.mod", "go.sum"} {
+		b, err := os.ReadFile(filepath.Join(cfg.repo, f))
+		if err != nil {
+			return nil, err
+		}
+		if err := os.WriteFile(filepath.Join(modDir, f), b, 0o644); err != nil {
+			return nil, err
+		}
+	}
+	modAbs, _ := filepath.Abs(filepath.Join(modDir, "go.mod"))
+	env := append(os.Environ(), "GOFLAGS=-mod=mod -modfile="+modAbs, "GOPROXY=off", "GOSUMDB=off", "GOTOOLCHAIN=local", "GODEBUG=goindex=0")
 	pcfg := &packages.Config{
 		Mode:       packages.NeedName | packages.NeedFiles | packages.NeedCompiledGoFiles | packages.NeedImports | packages.NeedDeps | packages.NeedTypes | packages.NeedTypesSizes | packages.NeedSyntax | packages.NeedTypesInfo,
 		Dir:        cfg.repo,
@@ -512,6 +553,23 @@ func (hr *harnessRun) summary(cfg *config) map[string]interface{} {
 			break
 		}
 		kl = append(kl, map[string]interface{}{"label": v.Label, "kf": v.KF, "inputs": v.Inputs, "file": kfiles[k]})
+	}
+	if forkProf {
+		type kv struct {
+			k string
+			n int
+		}
+		var l []kv
+		for k, n := range hr.forkSites {
+			l = append(l, kv{k, n})
+		}
+		sort.Slice(l, func(a, b int) bool { return l[a].n > l[b].n })
+		for k, e := range l {
+			if k >= 25 {
+				break
+			}
+			fmt.Fprintf(os.Stderr, "FORK %6d %s\n", e.n, e.k)
+		}
 	}
 	fnames := sortedKeys(hr.funcs)
 	labels := map[string]int{}
